@@ -4,6 +4,7 @@ import (
 	"fmt"
 	"go/token"
 	"go/types"
+	"strings"
 
 	"golang.org/x/tools/go/ssa"
 )
@@ -491,7 +492,15 @@ func (a *act) fieldAddr(x *ssa.FieldAddr, st *State, reach Term) Val {
 		e.cur.abstracted("FieldAddr on unknown pointer")
 		return Val{Typ: x.Type()}
 	}
-	a.nilCheck(base.T[0], st, reach, x.Pos(), a.fieldName(bt, x.Field))
+	// named after the dereferenced expression as written (`resolvedField.Primary().Value`), so that dereferences of
+	// different expressions of one type are separate obligation groups
+	what := a.fieldName(bt, x.Field)
+	if s, ok := bt.Underlying().(*types.Struct); ok && x.Field < s.NumFields() {
+		if xt := a.exprText(x.X); xt != "" && !strings.Contains(xt, "…") {
+			what = xt + "." + s.Field(x.Field).Name()
+		}
+	}
+	a.nilCheck(base.T[0], st, reach, x.Pos(), what)
 	return Val{Typ: x.Type(), Ext: &LocPtr{Kind: pkHeap, Base: base.T[0], BaseType: bt, Path: []pathStep{{Field: x.Field}}}}
 }
 
